@@ -93,6 +93,9 @@ def mismatch(lean, py, path=''):
                 if m:
                     return m
             return None
+        if name == 'cell' and v is None:
+            # a constructor argument kept as an unparsed cell where the schema has a structured value: presence only (declared)
+            return None if isinstance(py, Cell) else f'{path}: Lean "a cell", library {type(py).__name__}'
         if name == 'slice':
             from pytoniq_core.boc.slice import Slice
             if not isinstance(py, Slice):
